@@ -272,6 +272,11 @@ func (i idxField) SetValue(opts *options, elem value, v value) Error {
 	if i.i < 0 {
 		return raiseIndexOutOfBounds(opts, elem, i.i)
 	}
+	// a list grows up to the maximum index only (an explicit index is not
+	// limited by the path parser)
+	if i.i >= len(sub.c.fields.array()) && int64(i.i) > opts.maxIdx {
+		return raiseIndexOutOfBounds(opts, elem, i.i)
+	}
 
 	sub.c.fields.setAt(i.i, elem, v)
 	v.SetContext(context{parent: elem, field: i.String()})
